@@ -452,7 +452,22 @@ def _name_of(sc, obs, j):
     return nm if nm != -1 else None
 
 
-MONITORS = {'C20': monitor_c20}
+def monitor_c13(sc, obs):
+    """C13 on processors created while the simulation is running: uptime and utilisation count from the creation, exactly as for
+    the twin created before the start and run for the same duration."""
+    v = []
+    tw = obs[-1].get('twin') if obs else None
+    if tw and sc['twin']['kind'] == 'line':
+        e, l = tw['early'], tw['late']
+        if not e['err'] and not l['err'] and e['out'] and l['out']:
+            for k, what in (('uptime', 'uptime'), ('util', 'utilisation time')):
+                if e['out'].get(k) != l['out'].get(k):
+                    v.append(dict(sig='C13/late-' + k, what='a processor created at time %d (%s) reports %s %s/8 after running as long as its twin created before the start, which reports %s/8' % (
+                        sc['twin']['t'], sc['twin']['mode'], what, l['out'].get(k), e['out'].get(k))))
+    return v
+
+
+MONITORS = {'C20': monitor_c20, 'C13': monitor_c13}
 
 
 def stats(sc, obs):
